@@ -111,6 +111,11 @@ func (fx *FnExec) builtin(st *State, in *ssa.Call, b *ssa.Builtin, k cont) {
 		x0 := sel(sel(h, app("sl_arr", x.T)), app("idx", app("sl_off", x.T), "0"))
 		ln, cp, ar, of := app("sl_len", s.T), app("sl_cap", s.T), app("sl_arr", s.T), app("sl_off", s.T)
 		inplace := "(< " + ln + " " + cp + ")"
+		if fx.fc != nil && fx.entry != nil && !eng.freshIn(c.Args[0], func(*ssa.BasicBlock) bool { return true }, map[ssa.Value]bool{}) {
+			// an in-place append writes into an array the caller may see
+			fx.emit(st, &Obligation{Kind: "frame", Name: fx.siteName(in) + ".append", Props: []string{"C14", "C15"},
+				Goal: implies(inplace, "(> "+ar+" "+fx.entry.alloc+")")})
+		}
 		// in place
 		hIn := store(h, ar, store(sel(h, ar), app("idx", of, ln), x0))
 		// reallocation
@@ -138,6 +143,9 @@ func (fx *FnExec) builtin(st *State, in *ssa.Call, b *ssa.Builtin, k cont) {
 		key := fx.val(st, c.Args[1])
 		mt := c.Args[0].Type().Underlying().(*types.Map)
 		eng.regMap(mt)
+		if !eng.freshIn(c.Args[0], func(*ssa.BasicBlock) bool { return true }, map[ssa.Value]bool{}) {
+			fx.frameCheck(st, in, m.T, nil)
+		}
 		fx.mapDelete(st, mt, m.T, key.T)
 		k(st, nil)
 	default:
